@@ -633,8 +633,10 @@ class DebugSuite(Suite):
         else:
             checks_tw = ''
         fns.append(twin)
-        fns.append('pub fn run(out: &mut Out) { let vs = values(); for a in &vs { %s } %s }' % (' '.join(checks), checks_tw))
-        return t, module(t, '\n'.join(fns), nv), dict(values=nv, noparam=noparam)
+        resline = ('let mut res = String::new(); for a in &vs { res.push_str(&format!("{:?}", a).escape_default().to_string()); res.push(\'\\u{1}\'); } println!("RES\\t%s\\tdebug\\t{}", res);'
+                   ' let mut res = String::new(); for a in &vs { res.push_str(&format!("{:#?}", a).escape_default().to_string()); res.push(\'\\u{1}\'); } println!("RES\\t%s\\tdebug_alt\\t{}", res);' % (tid, tid))
+        fns.append('pub fn run(out: &mut Out) { let vs = values(); for a in &vs { %s } %s %s }' % (' '.join(checks), checks_tw, resline))
+        return t, module(t, '\n'.join(fns), nv), dict(values=nv, noparam=noparam, xops=['debug', 'debug_alt'])
 
 def type_decl_plain(t):
     """the bare type definition (no attributes)"""
@@ -1098,9 +1100,14 @@ class GenericsSuite(Suite):
         if extra and not (extra == 'Default' and kind == 'enum'):
             traits.append(extra)
         where = pick(r, ['where X: Mk', 'where X: Mk,', 'where X: Mk, [X; N]: Sized', ''])
-        header = "<'a, X: 'a + Copy, const N: usize>" if r.random() < 0.7 else "<'a, X: 'a + Copy = Good, const N: usize = 2>"
+        header = pick(r, ["<'a, X: 'a + Copy, const N: usize>", "<'a, X: 'a + Copy, const N: usize>", "<'a, X: 'a + Copy = Good, const N: usize = 2>"])
+        hyg = r.random() < 0.3      # parameters named like the identifiers templates pick (C19)
+        if hyg:
+            header = header.replace('const N', 'const __H').replace('X', '__H_')
         def fields(shape):
             fs = [("r", "&'a X"), ("arr", "[X; N]"), ("n", "u8")]
+            if 'Hash' in traits and r.random() < 0.5:
+                fs.append(("state", "u8"))
             if 'Default' in traits:
                 fs = [("opt", "Option<X>"), ("n", "u8"), ("ph", "::core::marker::PhantomData<&'a X>")]
             r.shuffle(fs)
@@ -1109,7 +1116,7 @@ class GenericsSuite(Suite):
             out = []
             vis = 'pub ' if kind == 'struct' else ''
             for nm, ty in fs:
-                a = ''.join('#[educe(%s)] ' % m for m in markers) if (ty == 'u8' and markers) else ''
+                a = ''.join('#[educe(%s)] ' % m for m in markers) if (nm == 'n' and markers) else ''
                 out.append('%s%s%s: %s' % (a, vis, nm, ty) if shape == 'named' else '%s%s%s' % (a, vis, ty))
             return ' { ' + ', '.join(out) + ' }' if shape == 'named' else '(' + ', '.join(out) + ')'
         markers = []
@@ -1143,7 +1150,7 @@ class GenericsSuite(Suite):
             body = 'pub enum T%s %s { V%s, W%s }' % (header, where, decl_fields(shape, fs, markers), decl_fields(shape, fields(shape), markers) if 'Deref' not in traits and 'Into' not in traits else decl_fields(shape, fs, markers))
             ctor_fs = fs
             ctor = 'T::V'
-        vals = {"&'a X": '&G', '[X; N]': '[Good(1), Good(2)]', 'Option<X>': 'None', 'u8': '5', "::core::marker::PhantomData<&'a X>": '::core::marker::PhantomData'}
+        vals = {"&'a X": '&G', 'u8': '5', '[X; N]': '[Good(1), Good(2)]', 'Option<X>': 'None', 'u8': '5', "::core::marker::PhantomData<&'a X>": '::core::marker::PhantomData'}
         if shape == 'named':
             mk = '%s { %s }' % (ctor, ', '.join('%s: %s' % (nm, vals[ty]) for nm, ty in ctor_fs))
         else:
@@ -1151,6 +1158,9 @@ class GenericsSuite(Suite):
         uses = []
         for tr in traits:
             uses.append('{ let x: T<\'static, Good, 2> = %s; %s }' % (mk, GEN_TRAITS[tr][1]))
+        if hyg:
+            body = re.sub(r"\bX\b", "__H_", body).replace('; N]', '; __H]')
+            tattrs = [re.sub(r"\bX\b", "__H_", a) for a in tattrs]
         t = Ty(tid, kind, [])
         t.raw_decl = '#[derive(Educe)]\n' + '\n'.join('#[educe(%s)]' % a for a in tattrs) + '\n' + body
         src = ('// %s\n#![allow(dead_code, unused_variables, unused_mut, unused_imports)]\nuse crate::support::*;\n'
